@@ -56,12 +56,13 @@ type Op struct {
 	Late  int  `json:"lateDeadline,omitempty"` // pick: 1 the context reports a deadline equal to now, 2 one in the past, and is not done (a context's timer may run late; custom contexts)
 	Exp   bool `json:"expired,omitempty"`      // pick: the context has already ended when the pick is issued (deadline in the past)
 
-	Out   int   `json:"out,omitempty"`   // done: 0 ok 1 Unavailable 2 client-side DEADLINE_EXCEEDED text 3 DEADLINE_EXCEEDED other text 4 raw context.DeadlineExceeded 5 Canceled 6..22 status code (n-6) 23 plain error 24 io.EOF
-	Rep   int   `json:"rep,omitempty"`   // done: 0 = the response of a BIND carries the request's key, 1 = it carries Reply (possibly empty)
-	Reply []int `json:"reply,omitempty"` // done: keys carried by the response of a BIND when Rep=1
+	Out   int   `json:"out,omitempty"`           // done: 0 ok 1 Unavailable 2 client-side DEADLINE_EXCEEDED text 3 DEADLINE_EXCEEDED other text 4 raw context.DeadlineExceeded 5 Canceled 6..22 status code (n-6) 23 plain error 24 io.EOF
+	Rcv   bool  `json:"bytesReceived,omitempty"` // done with an error outcome: DoneInfo.BytesReceived is set all the same (something arrived before the call failed)
+	Rep   int   `json:"rep,omitempty"`           // done: 0 = the response of a BIND carries the request's key, 1 = it carries Reply (possibly empty)
+	Reply []int `json:"reply,omitempty"`         // done: keys carried by the response of a BIND when Rep=1
 
 	Ns   int64 `json:"ns,omitempty"`   // adv: nanoseconds
-	Mode int   `json:"mode,omitempty"` // adv: 0 = Ns; 1 = to the detector boundary of slot Idx (+Eps ns)
+	Mode int   `json:"mode,omitempty"` // adv: 0 = Ns; 1 = to the detector boundary of slot Idx (+Eps ns); 2 = Ns, with the long cap (125 s instead of 10 s) while a BIND is waiting
 	Eps  int   `json:"eps,omitempty"`
 	B    bool  `json:"b,omitempty"` // failnew
 	N    int   `json:"n,omitempty"` // burst: number of pick+ok-completion pairs of method M with key Key
